@@ -309,6 +309,8 @@ func oracleC12(c *props.Case) props.Verdict {
 		}
 	}
 	parked := false
+	var lastSize int64
+	lastChange := time.Now()
 	deadline := time.Now().Add(40 * time.Second)
 	for time.Now().Before(deadline) {
 		if _, err := os.Stat(mark); err == nil {
@@ -316,6 +318,23 @@ func oracleC12(c *props.Case) props.Verdict {
 			break
 		}
 		if ls.Tail {
+			// The holder may also block on its full output pipe in the
+			// middle of the session (a warning printed while it computes
+			// the changes): the dialogue then stands still.
+			if st, err := os.Stat(le.transcript); err == nil {
+				if st.Size() != lastSize {
+					lastSize, lastChange = st.Size(), time.Now()
+				} else if st.Size() > 0 && time.Since(lastChange) > 1500*time.Millisecond {
+					select {
+					case <-holderDone:
+					default:
+						parked = true
+					}
+					if parked {
+						break
+					}
+				}
+			}
 			// the device session of the holder is over, the holder is not
 			done := false
 			for _, ev := range dlg.ReadTranscript(le.transcript) {
